@@ -322,10 +322,10 @@ func (g *Gen) failing() (string, string) {
 	switch r.Intn(12) {
 	case 11: // a LESS import cycle: the compilation must fail, and must leave nothing behind for later compilations
 		g.Eng.Less = true
-		if !g.has("side/loop.less") {
-			g.put("side/loop.less", "@import \"side/loop.less\";\n.l { color: blue; }\n")
+		if !g.has("loop.less") {
+			g.put("loop.less", "@import \"loop.less\";\n.l { color: blue; }\n")
 		}
-		return `<style type="text/css+less">@import "side/loop.less"; .q { color: red; }</style>`, "less-import-cycle"
+		return "<style type=\"text/css+less\">\n@import \"loop.less\";\n.q { color: red; }\n</style>", "less-import-cycle"
 	case 10: // a LESS source the compiler chokes on (it panics inside; the render must report an error and leave nothing locked)
 		g.Eng.Less = true
 		return "<style type=\"text/css+less\">\n.w {\n  w: hsvsaturation(rgb();\n}\n</style>", "less-compiler-panic"
